@@ -87,7 +87,7 @@ def check_layers(ctx, env0, label, idx):
         ctx.phi_fail("unwrapped_state_is_base_initial", case0)
 
     step = eqx.filter_jit(lambda s, a, k: env.step(s, a, key=k))
-    n = ctx.budget(6, 20)
+    n = ctx.budget(6, 12)
     for t in range(n):
         key, ka, ks, kc = jr.split(key, 4)
         action = sample_action(rng, env, ka)
@@ -407,15 +407,15 @@ def run(ctx):
     check_constructible(ctx)
     check_rescale(ctx)
     classic = [CartPole, MountainCar, Pendulum, Acrobot, ContinuousMountainCar]
-    for i in range(ctx.budget(10, 60)):
+    for i in range(ctx.budget(10, 30)):
         box = bool(ctx.rng.random() < 0.5)
         check_layers(ctx, random_tabular(ctx.rng, box=box, masks=not box), "tabular", i)
         ctx.gc()
-    for i in range(ctx.budget(5, 25)):
+    for i in range(ctx.budget(5, 12)):
         cls = classic[i % len(classic)]
         check_layers(ctx, cls(), cls.__name__, 1000 + i)
         ctx.gc(4)
-    for i in range(ctx.budget(6, 40)):
+    for i in range(ctx.budget(6, 24)):
         check_timelimit(ctx, i)
         ctx.gc()
     check_adapters(ctx)
